@@ -5,6 +5,7 @@ mod dap13;
 mod dap15;
 mod layer_a;
 mod layer_b;
+mod libs;
 mod mtprog;
 mod linetab;
 mod ns;
